@@ -10,7 +10,7 @@ LEVEL = "exploration"
 
 def run(rep, tier):
     solver_common.model_check(rep, ["SolverLoop_ls.cfg"])
-    nproc, ntruth, nquad = (8, 200, 80) if tier == "quick" else (16, 2000, 800)
+    nproc, ntruth, nquad = (8, 200, 300) if tier == "quick" else (16, 2000, 3000)
     total, stats, solvers, nevals = solver_common.drive_and_validate(rep, "C01", nproc, 0, ntruth, nquad)
     if not rep.violations and (total < nproc * (ntruth + nquad) * 0.9 or len(solvers) < 17 or stats.get("converged", 0) < 50):
         raise CheckError("C01 coverage too small: %d runs, %d solvers, %s" % (total, len(solvers), stats))
